@@ -34,6 +34,12 @@ pub enum Msg {
 pub struct Case {
     pub scn: Scenario,
     pub msg: Msg,
+    /// IPv4 header options on the ICMP message (ignored over IPv6 and for ARP)
+    #[serde(default)]
+    pub ip4_opts: Hex,
+    /// IP header fields the responder is not documented to look at
+    #[serde(default)]
+    pub ip_tweak: Option<IpTweak>,
 }
 
 fn op_strategy() -> impl Strategy<Value = u16> {
@@ -68,7 +74,7 @@ pub fn case_strategy() -> impl Strategy<Value = Case> {
         } else {
             (prop_oneof![6 => Just(0u8), 1 => any::<u8>()], any::<[u8; 4]>(), prop::option::weighted(0.3, any::<[u8; 16]>()), ndp_opts_wf(), any::<bool>()).prop_map(|(code, reserved, other_target, opts, unicast)| Msg::Ns { code, reserved, other_target, opts, unicast }).boxed()
         };
-        (Just(scn), prop_oneof![1 => l2, 1 => icmp]).prop_map(|(scn, msg)| Case { scn, msg })
+        (Just(scn), prop_oneof![1 => l2, 1 => icmp], crate::vf::answerable::ip4_options(), prop::option::weighted(0.25, crate::vf::props::c03::ip_tweak())).prop_map(|(scn, msg, ip4_opts, ip_tweak)| Case { scn, msg, ip4_opts, ip_tweak })
     })
 }
 
@@ -145,6 +151,15 @@ pub fn check(c: &Case, st: &mut Stats) -> Check {
         Msg::Icmp { typ, code, rest, pad } => {
             let v4 = net.is_v4();
             let mut f = if v4 { ip_frame(net, P_ICMP, &icmp4(*typ, *code, rest)) } else { ip_frame(net, P_ICMP6, &icmp6(&net.cip, &net.sip, *typ, *code, rest)) };
+            if !c.ip4_opts.is_empty() {
+                if let Some(f2) = insert_options(&f, &c.ip4_opts, &[]) {
+                    f = f2;
+                    st.class("icmp4:request-with-ip-options");
+                }
+            }
+            if let Some(t) = &c.ip_tweak {
+                apply_ip_tweak(&mut f, t);
+            }
             f.extend(std::iter::repeat(0xaau8).take(*pad as usize));
             let echo_t = if v4 { 8 } else { 128 };
             let repl_t = if v4 { 0 } else { 129 };
